@@ -835,7 +835,29 @@ class History:
             why = self.judge(k, gfam, st, res)
             if why and not any(f['at'] == at for f in self.failures):
                 self.failures.append(self.classify(world, at, pyfn, status, op, k, gfam, gp, kroot, k in ownset, why))
+        if any(f['at'] == at for f in self.failures):
+            self.resync(world)
         return status
+
+    def resync(self, world):
+        """after a reported failure the oracle adopts what the repository actually holds for the tracked keys, so that
+        the rest of the history is judged on its own (a later discrepancy is a new failure, not an echo)"""
+        from cherab.openadas import repository
+        for k, (gfam, kroot, gp) in self.tracked.items():
+            st, res = real_get(repository, gfam, gp, world.path(kroot))
+            if gfam == 'beamCx':
+                for kk in [kk for kk in list(self.oracle) + list(self.amb) if kk[:6] == k]:
+                    self.oracle.pop(kk, None)
+                    self.amb.pop(kk, None)
+                if st == 'ok':
+                    for m, v in res.items():
+                        self.oracle[k + (m,)] = v
+            else:
+                self.amb.pop(k, None)
+                if st == 'ok':
+                    self.oracle[k] = res['']
+                else:
+                    self.oracle.pop(k, None)
 
     # ---- S: verdict on one get ------------------------------------------------------------------------------------
     def allowed(self, k):
@@ -937,7 +959,7 @@ def parse_model_cat(out):
     return res
 
 
-def run_history(facts, ops, probes=(), rng=None, max_other=1000):
+def run_history(facts, ops, probes=(), rng=None, max_other=1000, stop_at_first=False):
     """-> History (lines/obs for K, failures for S)"""
     h = History(facts, max_other=max_other, rng=rng)
     w = World()
@@ -947,7 +969,7 @@ def run_history(facts, ops, probes=(), rng=None, max_other=1000):
             h.track(root, gfam, objs[1:] if gfam in PEC_CLASS else objs)
         for i, op in enumerate(ops):
             h.step(w, op, probe_all=(i == len(ops) - 1 or i % 10 == 9))
-            if h.failures:
+            if stop_at_first and h.failures:
                 break
     finally:
         w.close()
@@ -1215,7 +1237,7 @@ def shrink(facts, ops, probes, sig):
         changed = False
         for i in range(len(best) - 1):
             cand = best[:i] + best[i + 1:]
-            h = run_history(facts, cand, probes)
+            h = run_history(facts, cand, probes, stop_at_first=True)
             if any(f['signature'] == sig for f in h.failures):
                 best = cand
                 changed = True
@@ -1247,10 +1269,14 @@ def run(ctx):
     ok_table = ctx.lean_check(['Cherab.Props.C06Table'], 'Cherab/Audit/C06Table.lean')
     ctx.checker_cmd = cmd1 + ' ; ' + ctx.checker_cmd
     ctx.traces = 0
+    import time
+    t0 = time.time()
+    ctx.extra['seconds'] = dict(lean=round(t0 - ctx.t0, 1))
 
     registry_monitor(ctx)
 
-    runs = []        # (label, History, ops, probes)
+    runs = []        # (label, History)
+    reported = set()
 
     def do(label, ops, probes, sig_override=None, max_other=1000):
         h = run_history(facts, ops, probes, rng=rng, max_other=max_other)
@@ -1264,6 +1290,10 @@ def run(ctx):
                      sample=dict(op=_brief(op)) if rng.random() < 0.002 else None)
         for f in h.failures:
             sig = sig_override or f['signature']
+            if sig in reported:
+                ctx.count('failure-repeat:' + sig)
+                continue
+            reported.add(sig)
             small = shrink(facts, ops[:f['at'] + 1], probes, f['signature'])
             ctx.fail(sig, f['description'], dict(ops=small, probes=probes, found_in=label))
         return h
@@ -1286,10 +1316,13 @@ def run(ctx):
         ops, probes = gen_history(rng, rng.randint(5, 40), default_root=default_root)
         do('random-%d' % i, ops, probes, max_other=6)
 
+    ctx.extra['seconds']['implementation'] = round(time.time() - t0, 1)
+    t0 = time.time()
     # K: all histories through the driver in one go
     lines = [l for _, h in runs for l in h.lines]
     enc = encode_stream(ctx, rng)
     outs = ctx.driver(lines + ['wf'] + [e[0] for e in enc])
+    ctx.extra['seconds']['driver'] = round(time.time() - t0, 1)
     pos = 0
     for label, h in runs:
         compare(ctx, h, outs[pos:pos + len(h.lines)], label)
